@@ -111,7 +111,7 @@ Proof.
     intros s2 H2. apply bind_Same.
     { destruct iso; [exact H2|]. blocked P "remove_nodes_from"%string. exact H2. }
     intros s3 H3. apply bind_Same.
-    { destruct conn; [|exact H3]. eapply Same_trans; [exact H3|apply flcc_Same; exact P]. }
+    { destruct (conn && negb (match h_node s3 with [] => true | _ => false end)); [|exact H3]. eapply Same_trans; [exact H3|apply flcc_Same; exact P]. }
     intros s4 H4. destruct relabel; [|exact H4]. blocked P "clear"%string. exact H4.
   - apply flcc_Same. exact P.
   - split; reflexivity.
@@ -186,7 +186,7 @@ Proof.
     apply bind_Same.
     { destruct iso; [apply Same_refl|]. blocked P "remove_nodes_from"%string. apply Same_refl. }
     intros s1 H1. apply bind_Same.
-    { destruct conn; [|exact H1]. destruct (first_longest (components s1)); [|exact H1].
+    { destruct (conn && negb (match h_node s1 with [] => true | _ => false end)); [|exact H1]. destruct (first_longest (components s1)); [|exact H1].
       blocked P "remove_nodes_from"%string. exact H1. }
     intros s2 H2. destruct relabel; [|exact H2]. blocked P "clear"%string. exact H2.
   - apply SameStruct_Same. apply set_node_attrs_dict_same.
